@@ -178,3 +178,12 @@ Require Copia.Proofs.TiePushCommand.
 Theorem C09_push_command_is_translation_of_source : TiePushCommand.push_command_is_translation.
 Proof. exact TiePushCommand.push_command_is_translation_holds. Qed.
 Print Assumptions C09_push_command_is_translation_of_source.
+
+(** Two reviewed call sequences are the translation of the source as it is now: serve.rs `with_commit_lock` (open the lock
+    file without truncating or ever removing it, exclusive flock, the body, unlock) and dir_sync.rs
+    `transfer_file_from_remote` (spawn, create-and-truncate the staging file, copy, flush before returning, wait)
+    (Gen/CommitLockGen.v, Proofs/TieCommitLock.v). *)
+Require Copia.Proofs.TieCommitLock.
+Theorem C09_call_sequences_are_translation_of_source : TieCommitLock.call_sequences_are_translation.
+Proof. exact TieCommitLock.call_sequences_are_translation_holds. Qed.
+Print Assumptions C09_call_sequences_are_translation_of_source.
